@@ -507,6 +507,8 @@ def h_glue(eng, lang, K, F):
     if crash:
         eng.event('crash')
         obs.append(Ob('crash-classified|%s' % lang, comp.crash_msg == text and failed is None, case))
+    elif failed is None:
+        obs.append(Ob('no-crash|%s' % lang, False, case))
     else:
         got = {k: [m.rstrip('\n') if lang == 'scala' else m for m in v] for k, v in failed.items()}
         wantn = {k: [m.rstrip('\n') if lang == 'scala' else m for m in v] for k, v in want.items()}
